@@ -82,6 +82,24 @@ pub fn ev_cases(pl: &Plain, two_d: bool, thorough: bool) -> Vec<EvCase> {
         v.push(EvCase { label: format!("pair reversed step {}", k), specs: vec![t(b), t(a)], known_root: Some(b) });
         v.push(EvCase { label: format!("pair coincident step {}", k), specs: vec![t(a), nt(a)], known_root: Some(a) });
         v.push(EvCase { label: format!("triple step {}", k), specs: vec![t(c), nt(a), t(b)], known_root: Some(c) });
+        // six functions crossing in one step, in scrambled index order, two of them filtered out by direction
+        {
+            let th = [0.55, 0.15, 0.85, 0.35, 0.7, 0.25];
+            let mut specs = vec![];
+            for (i, q) in th.iter().enumerate() {
+                let x = pl.xs[k] + q * h;
+                let mut e = if i % 2 == 0 { t(x) } else { nt(x) };
+                if i == 3 {
+                    // t - c rises along t: filtered out when integrating forward with Negative (and vice versa)
+                    e = t(x).dir(if h > 0.0 { Direction::Negative } else { Direction::Positive });
+                }
+                if i == 4 {
+                    e = t(x).dir(if h > 0.0 { Direction::Positive } else { Direction::Negative });
+                }
+                specs.push(e);
+            }
+            v.push(EvCase { label: format!("six functions step {}", k), specs, known_root: None });
+        }
         // a terminal event among several functions firing in the same step (either side of the others)
         v.push(EvCase { label: format!("term pair: other before step {}", k), specs: vec![t(a), t(b).term(1)], known_root: Some(a) });
         v.push(EvCase { label: format!("term pair: other after step {}", k), specs: vec![t(b), t(a).term(1)], known_root: Some(b) });
@@ -516,7 +534,8 @@ pub fn run_check(mode: Mode, replay: Option<Value>) -> i32 {
     let mut rep = Report::new(id, "model_checking");
     let only = replay.as_ref().and_then(|c| c["key"].as_str().map(|s| s.to_string()));
     let thorough = is_thorough();
-    let tols: Vec<f64> = if thorough { vec![1e-4, 1e-8, 1e-2, 1e-6, 1e-10] } else { vec![1e-4, 1e-8] };
+    // a negative entry stands for per-component tolerances (rtol_i = |v| 10^-i, atol_i = 1e-2 rtol_i)
+    let tols: Vec<f64> = if thorough { vec![1e-4, 1e-8, -1e-5, 1e-2, 1e-6, 1e-10] } else { vec![1e-4, 1e-8, -1e-5] };
     let mut ctxs = vec![];
     for (mi, m) in M6.iter().enumerate() {
         for backward in [false, true] {
@@ -531,10 +550,19 @@ pub fn run_check(mode: Mode, replay: Option<Value>) -> i32 {
                     if mode == Mode::C10 && fi >= 1 && ti == 1 {
                         continue;
                     }
-                    if fi == 2 && (*m == Method::RK4 || ti != 0) {
+                    // (a 2e-13 step is below the resolution of the abscissa once |x0| is large: not a valid request there)
+                    if fi == 2 && (*m == Method::RK4 || ti != 0 || sc.x0.abs() > 1.0) {
                         continue;
                     }
-                    let mut cfg = scene_cfg(*m, &sc, *tol);
+                    if *tol < 0.0 && (sc.prob.n < 2 || fi != 0 || mode == Mode::C10) {
+                        continue;
+                    }
+                    let mut cfg = scene_cfg(*m, &sc, tol.abs());
+                    if *tol < 0.0 {
+                        let r: Vec<f64> = (0..sc.prob.n).map(|i| tol.abs() * 10f64.powi(-(i as i32))).collect();
+                        cfg.atol = crate::run::Tol::V(r.iter().map(|v| v * 1e-2).collect());
+                        cfg.rtol = crate::run::Tol::V(r);
+                    }
                     if let Some(f) = fs {
                         cfg.first_step = Some(if *f < 0.0 { -f * (sc.xend - sc.x0).signum() } else { f * (sc.xend - sc.x0) });
                     }
